@@ -6,6 +6,7 @@ package model
 
 import (
 	"fmt"
+	"regexp"
 	"sort"
 	"strconv"
 	"strings"
@@ -150,6 +151,12 @@ func (e Exp) SubExps() []Exp { return e.subExps }
 
 // ---- expectation constructors -------------------------------------------------
 
+var humanFloatRe = regexp.MustCompile(`^-?(0|[1-9][0-9]*)(\.[0-9]*[1-9])?$`)
+
+// HumanFloat: the form in which Redis prints the result of INCRBYFLOAT / HINCRBYFLOAT (and stores it): plain decimal
+// digits, no exponent, no trailing zeros, no trailing point.
+func HumanFloat(s string) bool { return humanFloatRe.MatchString(s) }
+
 func Unspecified(note string) Exp { return Exp{Unspec: true, Note: note} }
 func UnspecRO(note string) Exp    { return Exp{Unspec: true, ReadOnly: true, Note: note} }
 func ErrExp(class string) Exp     { return Exp{Err: class} }
@@ -234,6 +241,9 @@ func Match(e Exp, got resp.Value) string {
 		b, err2 := strconv.ParseFloat(g.Text(), 64)
 		if err1 != nil || err2 != nil || a != b {
 			return "expected number " + e.Val.Text() + ", got " + g.String()
+		}
+		if !HumanFloat(g.Text()) {
+			return "expected the number in Redis's plain decimal form (" + e.Val.Text() + "), got " + g.String()
 		}
 		return ""
 	}
